@@ -2,7 +2,7 @@
    ExtrOcamlBasic only: N, positive, nat, byte stay Coq datatypes. *)
 From Coq Require Extraction ExtrOcamlBasic.
 From Coq Require Import NArith.
-From V Require Import Gen.GenSuper Model.SuperModel Model.Lib Model.Afs Model.Abs Model.Agree.
+From V Require Import Gen.GenSuper Model.SuperModel Model.Lib Model.Afs Model.Abs Model.Agree Model.WalDisk.
 Extraction Blacklist String List Nat.
 Set Extraction KeepSingleton.
 Extraction "extracted.ml"
@@ -14,4 +14,5 @@ Extraction "extracted.ml"
   GenSuper.DataStart GenSuper.NInode GenSuper.Inum2Addr GenSuper.NBlockBitmap
   SuperModel.markAlloc_sane SuperModel.mk_bit SuperModel.mk_ibit SuperModel.fresh_free_blocks SuperModel.fresh_free_inodes
   SuperModel.layout_ok_b SuperModel.bitmap_ok_b
-  Agree.agree Agree.hint_of Agree.cmp_state Agree.class_of Agree.code_of Agree.nospace_plausible.
+  Agree.agree Agree.hint_of Agree.cmp_state Agree.class_of Agree.code_of Agree.nospace_plausible
+  WalDisk.recover_log WalDisk.fs_part WalDisk.read_hdr Byte.to_N.
